@@ -606,12 +606,13 @@ class KeychainSqlite3(Keychain):
             return None
         if sign_args.get('digest_sha256', False):
             return DigestSha256Signer()
+        # Identity and Key objects are Mappings: one without keys / certificates is falsy, so test for None
         cert_name = sign_args.get('cert', None)
-        if not cert_name:
+        if cert_name is None:
             key_name = sign_args.get('key', None)
-            if not key_name:
+            if key_name is None:
                 id_name = sign_args.get('identity', None)
-                if id_name:
+                if id_name is not None:
                     if isinstance(id_name, Identity):
                         identity = id_name
                     else:
